@@ -304,6 +304,26 @@ pub fn build(repo: &Path, root: &Path, with_big: bool) -> Tree {
                     fixtures.push(Fixture { dir: name.to_string(), file: file.into(), is_schema: false, ops: operation_names(text), big: false, deepbad: false });
                 }
             }
+            // a document a little over 8 KiB whose only non-ASCII character sits across byte
+            // 8191 / 8192, and one over 16 KiB with such a character across 16383 / 16384
+            for (file, at) in [("query_straddle8k.graphql", 8191usize), ("query_straddle16k.graphql", 16383)] {
+                let head = "# ";
+                let mut text = String::from(head);
+                text.push_str(&"x".repeat(at - head.len()));
+                text.push('\u{e9}');
+                text.push_str(&" y".repeat(500));
+                text.push_str("\nquery Straddle { me { name } }\n");
+                assert_eq!(text.as_bytes()[at], 0xc3);
+                fs::write(d.join(file), &text).unwrap();
+                fixtures.push(Fixture { dir: name.to_string(), file: file.into(), is_schema: false, ops: operation_names(&text), big: false, deepbad: false });
+            }
+            // a document that makes code generation itself panic (with a literal message), after
+            // both files were loaded and the query was bound: `null` as a variable's default value
+            {
+                let text = "query NullDefault($x: Int = null) { me { name } }\n";
+                fs::write(d.join("query_nulldefault.graphql"), text).unwrap();
+                fixtures.push(Fixture { dir: name.to_string(), file: "query_nulldefault.graphql".into(), is_schema: false, ops: operation_names(text), big: false, deepbad: false });
+            }
             // variables of types the schema does not declare, met in two different orders
             for (file, text) in [("query_undeclared_a.graphql", "query UA($a: Alpha, $z: Zeta) { me { name } }\n"), ("query_undeclared_b.graphql", "query UB($z: Zeta, $a: Alpha, $m: Mood) { me { name } }\n")] {
                 fs::write(d.join(file), text).unwrap();
